@@ -418,7 +418,9 @@ class FitOutputManager:
         if parameter_name == "mixing_matrix":
             ax[i].set_title(parameter_name + " " + model.features[index])
         elif parameter_name == "zeta":
-            ax[i].set_title(parameter_name + " " + "event" + " " + str(index + 1))
+            # with a single event `State.save` writes one un-indexed file: there is no index in its name
+            event = 1 if index is None else index + 1
+            ax[i].set_title(parameter_name + " " + "event" + " " + str(event))
         elif parameter_name.startswith("sourcewise"):
             ax[i].set_title(
                 parameter_name.replace("sourcewise_", "")
